@@ -208,7 +208,8 @@ static std::string head (const std::string &s, size_t n) {
   return s.size () <= n ? s : s.substr (0, n);
 }
 
-static Outcome run_forked (const std::function<void (Outcome &)> &f) {
+static Outcome run_forked (const std::function<void (Outcome &)> &f, int timeout_s = -1) {
+  if (timeout_s < 0) timeout_s = g_cfg.timeout_s;
   int pfd[2];
   if (pipe (pfd) != 0) {
     perror ("pipe");
@@ -232,7 +233,7 @@ static Outcome run_forked (const std::function<void (Outcome &)> &f) {
     struct rlimit rl = {0, 0};
     setrlimit (RLIMIT_CORE, &rl);
     signal (SIGALRM, SIG_DFL);
-    if (g_cfg.timeout_s > 0) alarm ((unsigned) g_cfg.timeout_s);
+    if (timeout_s > 0) alarm ((unsigned) timeout_s);
     Outcome o;
     g_child_pipe = pfd[1];
     f (o);
@@ -357,6 +358,14 @@ Outcome run_one (const std::vector<uint8_t> &bytes) {
   return o;
 }
 
+Outcome run_isolated (const std::function<void (Outcome &)> &f) {
+  int saved = g_child_pipe;
+  g_child_pipe = -1;
+  Outcome o = run_forked (f, 10);
+  g_child_pipe = saved;
+  return o;
+}
+
 Outcome run_closure (const std::function<void (Outcome &)> &f) {
   Outcome o;
   if (g_fork) o = run_forked (f);
@@ -475,6 +484,8 @@ int harness_main (int argc, char **argv, const HarnessCfg &cfg) {
     }
   }
   signal (SIGPIPE, SIG_IGN);
+  if (const char *t = harness_opt ("timeout")) g_cfg.timeout_s = atoi (t);
+  if (harness_opt ("reduce") && !harness_opt ("timeout")) g_cfg.timeout_s = 1800;
   if (cfg.init) cfg.init ();
   double t0 = now_s ();
   if (mode == M_REPLAY || mode == M_DECODE) {
@@ -490,7 +501,7 @@ int harness_main (int argc, char **argv, const HarnessCfg &cfg) {
       fprintf (stderr, "no bytes_hex in %s\n", replay.c_str ());
       return 3;
     }
-    g_fork = true;
+    g_fork = getenv ("VERIF_NOFORK") == NULL; /* triage under gdb: run the case in-process */
     int nfail = 0, ndisc = 0, reps = mode == M_DECODE ? 1 : 3;
     Outcome last;
     for (int k = 0; k < reps; k++) {
